@@ -170,6 +170,7 @@ func (lb *LoadBalancer) TargetStateChanged(target *Target) {
 // Private
 
 func (lb *LoadBalancer) claimTarget(req *http.Request) (*Target, *http.Request, error) {
+	verifPoint("lb.claiming", req)
 	lb.lock.Lock()
 	for lb.successor != nil {
 		successor := lb.successor
